@@ -85,6 +85,8 @@ struct Thr {
 		void    *site[4];
 	} hsite[4]; // call sites of the most recent mutex acquisitions (ring)
 	unsigned nhsite;
+	unsigned held[24]; // ids of the mutexes this thread owns
+	int      nheld;
 	int      role; // for switch signature: 0 main,1 harness,2 task,3 expire,4 poll,5 resolv,6 reap,7 other
 };
 
